@@ -125,6 +125,12 @@ func FromGNMITypedValue(v *gnmi.TypedValue) *sdcpb.TypedValue {
 			Value: &sdcpb.TypedValue_UintVal{UintVal: v.GetUintVal()},
 		}
 	case *gnmi.TypedValue_DecimalVal:
+		//lint:ignore SA1019 still need DecimalVal for backward compatibility
+		d := v.GetDecimalVal()
+		return &sdcpb.TypedValue{
+			Value: &sdcpb.TypedValue_DecimalVal{DecimalVal: &sdcpb.Decimal64{Digits: d.GetDigits(), Precision: d.GetPrecision()}},
+		}
+	case *gnmi.TypedValue_DoubleVal:
 		return &sdcpb.TypedValue{
 			Value: &sdcpb.TypedValue_DoubleVal{DoubleVal: v.GetDoubleVal()},
 		}
